@@ -21,8 +21,9 @@ func init() {
 			"C08.ovf: in newSize the success return carries the low word of bits.Mul64(uint64(value), multiplier) and is dominated by a test of the high word against 0 whose non-zero edge returns an error; the multiplication and the unit-less return are dominated by the sign test and the round-trip test N(uint64(value)) != value; unknown unit → InvalidUnitError; zero path consults zeroUnits. " +
 			"C08.text: digits go through strconv.ParseUint(·,10,64) with the error returned; RuleDisableUnit gates the unit path; prepareNumber's character classes are the documented ones. " +
 			"C08.trim: whitespace around the whole is removed without bound (a TrimSuffix/TrimPrefix with an all-space constant removes at most one). " +
+			"C08.ovf (as built): newSize is extracted as a decision table over (sign of value, integrality round trip, unit empty / in zeroUnits / in unitToValues, high word of bits.Mul64) and compared with the documented outcomes by three-valued logic; C08.text likewise for the text path (digits present, ParseUint error, unit present, RuleDisableUnit, newSize error); C08.bytes: Bytes[N] per reflect.Kind succeeds exactly on `s <= Max(kind)` for the ten integer kinds and exactly on the conversion round trip for the float kinds. " +
 			"C08.max: internal.Max/Min/SmallestNonzero switch tables pair each reflect.Kind with the boxed type and math constant of that kind (re-checked under GOARCH=386 in the thorough tier); Bytes uses Max for the ten integer kinds and the round-trip test for the float kinds.",
-		NotDecided:  []string{"exactness of float↔uint64 conversions at the 2^53/2^64 boundaries (platform-defined)", "Bytes[float] results"},
+		NotDecided:  []string{"exactness of float↔uint64 conversions at the 2^53/2^64 boundaries (platform-defined): the rule decides that the verdict is the round-trip test, not what the hardware conversion yields"},
 		Assumptions: []string{"bits.Mul64 returns the exact 128-bit product", "strconv.ParseUint(s,10,64) is exact or fails"},
 		Technique:   "constant-table reading + decision-table extraction (newSize, text path, Bytes per kind, Max/Min tables) over go/ssa",
 	})
